@@ -34,6 +34,11 @@ func (a *Asm) op(o byte, args ...byte) {
 	a.code = append(a.code, o)
 	a.pos = append(a.pos, a.cur)
 	for _, b := range args {
+		// the format stores one position per code byte: operand bytes may
+		// carry positions of their own
+		if gen.Chance(a.t, 40, "operandpos") {
+			a.cur += gen.Int(a.t, 1, 2, "operandposstep")
+		}
 		a.code = append(a.code, b)
 		a.pos = append(a.pos, a.cur)
 	}
@@ -329,6 +334,9 @@ func (a *Asm) stmts(n int, depth int) {
 				tgt = TgtSlice
 			}
 			a.opUv(BIND, a.konst(gen.Pick(a.t, "bindt", asmTypes)))
+			if gen.Chance(a.t, 40, "operandpos") {
+				a.cur += gen.Int(a.t, 1, 2, "operandposstep")
+			}
 			a.code = append(a.code, byte(tgt|sel))
 			a.pos = append(a.pos, a.cur)
 		case 5: // LOOP: backward jump onto a forward jump
